@@ -1123,6 +1123,30 @@ fn enc<T: ToTLV>(v: &T) -> Vec<u8> {
     try_enc(v).unwrap_or_default()
 }
 
+/// a structure with the derived encoder / decoder over every integer width, plain, nullable, optional
+#[derive(Debug, Clone, PartialEq, FromTLV, ToTLV)]
+struct PrimFields {
+    a: i8,
+    b: i16,
+    c: i32,
+    d: i64,
+    e: u8,
+    f: u16,
+    g: u32,
+    h: u64,
+    na: rs_matter::tlv::Nullable<i8>,
+    nb: rs_matter::tlv::Nullable<i16>,
+    nc: rs_matter::tlv::Nullable<i32>,
+    nd: rs_matter::tlv::Nullable<i64>,
+    ne: rs_matter::tlv::Nullable<u8>,
+    nf: rs_matter::tlv::Nullable<u16>,
+    ng: rs_matter::tlv::Nullable<u32>,
+    nh: rs_matter::tlv::Nullable<u64>,
+    oa: Option<i8>,
+    od: Option<i64>,
+    oh: Option<u64>,
+}
+
 fn part_d() -> Acc {
     use rs_matter::tlv::Nullable;
     let mut acc = Acc::default();
@@ -1209,6 +1233,77 @@ fn part_d() -> Acc {
     for t in [0u16, 1, u16::MAX] {
         for rev in [None, Some(0u8), Some(u8::MAX)] {
             rt!("TimedReq", TimedReq, TimedReq { timeout: t, interaction_model_revision: rev });
+        }
+    }
+    // the typed readers / writers of every integer width, plain, nullable and optional, alone and as
+    // fields of a derived structure, at every boundary value of every width
+    let cands: Vec<i128> = {
+        let mut c: Vec<i128> = vec![0, 1, -1, 2, -2];
+        for bits in [7u32, 8, 15, 16, 31, 32, 63, 64] {
+            let p = 1i128 << bits;
+            c.extend([p - 2, p - 1, p, p + 1, -p - 1, -p, -p + 1, -p + 2]);
+        }
+        c.sort();
+        c.dedup();
+        c
+    };
+    macro_rules! prim {
+        ($name:literal, $t:ty, $signed:expr) => {{
+            for c in &cands {
+                if let Ok(x) = <$t>::try_from(*c) {
+                    rt!($name, $t, x);
+                    rt!($name, Option<$t>, Some(x));
+                    // the value a nullable integer reserves for null: the maximum (unsigned) / the minimum (signed)
+                    let reserved = if $signed { x == <$t>::MIN } else { x == <$t>::MAX };
+                    if !reserved {
+                        rt!($name, Nullable<$t>, Nullable::some(x));
+                    }
+                }
+            }
+            rt!($name, Nullable<$t>, Nullable::none());
+        }};
+    }
+    prim!("prim:u8", u8, false);
+    prim!("prim:u16", u16, false);
+    prim!("prim:u32", u32, false);
+    prim!("prim:u64", u64, false);
+    prim!("prim:i8", i8, true);
+    prim!("prim:i16", i16, true);
+    prim!("prim:i32", i32, true);
+    prim!("prim:i64", i64, true);
+    for b in [false, true] {
+        rt!("prim:bool", bool, b);
+        rt!("prim:bool", Nullable<bool>, Nullable::some(b));
+    }
+    {
+        let pick = |k: usize, lo: i128, hi: i128| -> i128 {
+            let fit: Vec<i128> = cands.iter().copied().filter(|c| *c >= lo && *c <= hi).collect();
+            fit[k % fit.len()]
+        };
+        for k in 0..cands.len() {
+            // (the values reserved for null are excluded from the nullable fields' ranges)
+            let v = PrimFields {
+                a: pick(k, i8::MIN as i128, i8::MAX as i128) as i8,
+                b: pick(k, i16::MIN as i128, i16::MAX as i128) as i16,
+                c: pick(k, i32::MIN as i128, i32::MAX as i128) as i32,
+                d: pick(k, i64::MIN as i128, i64::MAX as i128) as i64,
+                e: pick(k, 0, u8::MAX as i128) as u8,
+                f: pick(k, 0, u16::MAX as i128) as u16,
+                g: pick(k, 0, u32::MAX as i128) as u32,
+                h: pick(k, 0, u64::MAX as i128) as u64,
+                na: Nullable::some(pick(k, i8::MIN as i128 + 1, i8::MAX as i128) as i8),
+                nb: Nullable::some(pick(k, i16::MIN as i128 + 1, i16::MAX as i128) as i16),
+                nc: Nullable::some(pick(k, i32::MIN as i128 + 1, i32::MAX as i128) as i32),
+                nd: Nullable::some(pick(k, i64::MIN as i128 + 1, i64::MAX as i128) as i64),
+                ne: if k % 5 == 0 { Nullable::none() } else { Nullable::some(pick(k, 0, u8::MAX as i128 - 1) as u8) },
+                nf: Nullable::some(pick(k, 0, u16::MAX as i128 - 1) as u16),
+                ng: Nullable::some(pick(k, 0, u32::MAX as i128 - 1) as u32),
+                nh: Nullable::some(pick(k, 0, u64::MAX as i128 - 1) as u64),
+                oa: if k % 3 == 0 { None } else { Some(pick(k, i8::MIN as i128, i8::MAX as i128) as i8) },
+                od: if k % 3 == 1 { None } else { Some(pick(k, i64::MIN as i128, i64::MAX as i128) as i64) },
+                oh: if k % 3 == 2 { None } else { Some(pick(k, 0, u64::MAX as i128) as u64) },
+            };
+            rt!("prim:derived-struct", PrimFields, v);
         }
     }
     valid.dedup_by(|a, b| a.1 == b.1);
